@@ -1576,3 +1576,58 @@ def c04_warp_inverse_representation(ctx, cls, kernel):
         close(ctx, '%s/forward-still-interpolates-after-taking-the-inverse' % pname, t.apply(src), tgt, tol)
         inv2 = inv.pseudoinverse()
         close(ctx, '%s/inverse-of-the-inverse-interpolates-forward' % pname, inv2.apply(src), tgt, tol)
+
+
+# --------------------------- C18: normalisers across precisions and magnitudes
+@contract('C18', 'normalisers_precision_and_magnitude', level='bounded', native_samples=2,
+          configs=[dict(fn=fn, mode=mode, dtype=dt) for fn in ('normalize_std', 'normalize_norm', 'normalize_var') for mode in ('all', 'per_channel')
+                   for dt in ('float64', 'float32')],
+          functions=['menpo.feature.features:normalize', 'menpo.feature.features:normalize_std', 'menpo.feature.features:normalize_norm',
+                     'menpo.feature.features:normalize_var'])
+def c18_normalisers_precision(ctx, fn, mode, dtype):
+    """float32 and float64 data of every magnitude the type represents
+    comfortably (contrast 1e-6 .. 1e4): the result is the centred data divided
+    by the requested statistic (to the precision of the type), on arrays,
+    Image and MaskedImage alike; only exactly constant data has 'zero scale'
+    (refused by default, skipped on request, never non-finite)."""
+    import menpo.feature as F
+    from menpo.image import Image, MaskedImage
+    rs = ctx.nprng
+    f = getattr(F, fn)
+    eps = np.finfo(dtype).eps
+    for contrast in (1e-6, 1e-4, 1e-2, 1.0, 1e2, 1e4):
+        base = rs.randn(2, 6, 7)
+        x = (base * contrast + contrast * rs.uniform(-3, 3)).astype(dtype)
+        xd = x.astype(np.float64)
+        flat = xd.reshape(2, -1)
+        if mode == 'all':
+            c = flat - flat.mean()
+            s = {'normalize_std': c.std(), 'normalize_norm': np.linalg.norm(c), 'normalize_var': c.var()}[fn]
+            want = (c / s).reshape(x.shape)
+        else:
+            c = flat - flat.mean(1, keepdims=True)
+            s = {'normalize_std': c.std(1), 'normalize_norm': np.linalg.norm(c, axis=1), 'normalize_var': c.var(1)}[fn].reshape(-1, 1)
+            want = (c / s).reshape(x.shape)
+        tol = 200 * eps * max(1.0, float(np.abs(want).max()))
+        tag = 'contrast=%g' % contrast
+        for kind, obj in (('array', x.copy()), ('Image', Image(x.copy())), ('MaskedImage', MaskedImage(x.copy(), mask=rs.rand(6, 7) > 0.3))):
+            for kw in ({}, {'error_on_divide_by_zero': False}):
+                opt = 'skip-on-zero' if kw else 'default'
+                try:
+                    r = f(obj, mode=mode, **kw)
+                except ValueError as e:
+                    ctx.check_true('%s/%s/%s/non-constant-data-is-not-refused' % (tag, kind, opt), False, str(e))
+                    continue
+                got = np.asarray(r if kind == 'array' else r.pixels, dtype=np.float64)
+                close(ctx, '%s/%s/%s/==(x-mean)/statistic' % (tag, kind, opt), got, want, tol)
+    # exactly constant data: refused / skipped, in both precisions
+    const = np.full((2, 6, 7), 3.0, dtype=dtype)
+    const[1] += rs.randn(6, 7).astype(dtype) if mode == 'per_channel' else 0
+    try:
+        f(const.copy(), mode=mode)
+        refused = False
+    except ValueError:
+        refused = True
+    ctx.check_true('constant-data/refused-by-default', refused)
+    r = f(const.copy(), mode=mode, error_on_divide_by_zero=False)
+    ctx.check_true('constant-data/skipped-on-request-is-finite', bool(np.all(np.isfinite(r))))
